@@ -976,7 +976,12 @@ on a connection that accepts the writes, it decodes the WHOLE wire to: the handl
 the encoding state followed by exactly the handler's non-trailer fields; the concatenation of the accepted writes; the
 trailer fields of `c09_stage2_trailer_keys` — and nothing is left over.  (The pieces were `c09_stage2_head`,
 `c09_stage1_unframe`, `c09_stage2_trailers`; identity framing: `c09_identity_auto_length`, `c09_flush_close_delimited`,
-`c09_readfrom_*`, where the body is delimited by Content-Length or by the close.) -/
+`c09_readfrom_*`, where the body is delimited by Content-Length or by the close.)
+What this does NOT say: `decodeChunked` exists in Lean only (no driver runs it; the tie to a real client decoder is the
+oracle `c09-decode` with net/http); it is a decoder for CHUNKED responses and is applied under the hypothesis `hch` — it does
+not choose the framing from the parsed head (that the head of a chunked response announces `Transfer-Encoding: chunked` and no
+Content-Length is `c09_stage2_head_framing`); the encoding state `rE` of the automatic fields is existentially quantified
+(only its framing flag is pinned here); `failAt = 0`. -/
 theorem c09_decode_chunked (g : Cfg) (hg : g.failAt = 0) (hreal : g.head = headBytes g)
     (hdr : Header) (sc : Nat) (st : Bytes) (ops : List BOp) (hok : ∀ op ∈ ops, op.ok)
     (htr : ∀ op ∈ ops, op.trailerOnly (body0 g hdr sc st).header)
